@@ -100,7 +100,13 @@ def decision_variants(schedule, obs):
     out = []
     if schedule.get("decisions"):
         return out
+    paused_calls = [c for c in obs.calls if c.get("state_after") == "paused"]
+    last_inj = max((tuple(p)[0] for p, _ in schedule.get("injections", ())), default=-1)
     for i in range(obs.npauses):
+        # a different decision at pause i changes everything after it: injections positioned later would be
+        # meaningless, and the same schedule without them is explored on its own
+        if last_inj >= paused_calls[i].get("n_ret", 0):
+            break
         for alt in ALT_DECISIONS:
             s = dict(schedule)
             s["decisions"] = ["resume"] * i + [alt]
